@@ -138,8 +138,21 @@ where
     }
 
     fn datetime(&self, mut naive: NaiveDateTime) -> Self::DateTime {
+        let requested = naive;
+
         loop {
-            if let Some(dt) = self.tz.from_local_datetime(&naive).latest() {
+            if let Some(mut dt) = self.tz.from_local_datetime(&naive).latest() {
+                // A minute step may land past the end of a gap that does not end on a whole
+                // minute: walk back to the first valid second after the requested time.
+                while naive > requested {
+                    naive -= TimeDelta::seconds(1);
+
+                    match self.tz.from_local_datetime(&naive).latest() {
+                        Some(prev) => dt = prev,
+                        None => break,
+                    }
+                }
+
                 return dt;
             }
 
